@@ -327,8 +327,39 @@ func release(key interface{}) {
 
 type gchan struct {
 	buf    []value
+	vcs    [][]int // clock of the sender of each buffered message (happens-before is per message)
+	cvc    []int   // clock of the closer
 	cap    int
 	closed bool
+}
+
+func (c *gchan) push(v value) {
+	c.buf = append(c.buf, v)
+	var vc []int
+	if sched != nil && sched.cur != nil {
+		t := sched.cur
+		vc = append([]int{}, t.vc...)
+		t.tick()
+	}
+	c.vcs = append(c.vcs, vc)
+}
+
+func (c *gchan) pop() value {
+	v := c.buf[0]
+	c.buf = c.buf[1:]
+	if len(c.vcs) > 0 {
+		if sched != nil && sched.cur != nil && c.vcs[0] != nil {
+			vcJoin(&sched.cur.vc, c.vcs[0])
+		}
+		c.vcs = c.vcs[1:]
+	}
+	return v
+}
+
+func (c *gchan) acquireClose() {
+	if sched != nil && sched.cur != nil && c.cvc != nil {
+		vcJoin(&sched.cur.vc, c.cvc)
+	}
 }
 
 func newChan(size int64) *gchan {
@@ -349,8 +380,7 @@ func chanSend(ch value, v value) {
 	if c.closed {
 		panic(targetPanic{iface{t: types.Typ[types.String], v: "send on closed channel"}})
 	}
-	release(c)
-	c.buf = append(c.buf, v)
+	c.push(v)
 }
 
 func chanRecv(ch value, elem types.Type) (value, bool) {
@@ -360,12 +390,9 @@ func chanRecv(ch value, elem types.Type) (value, bool) {
 	}
 	sched.yield(func() bool { return c.closed || len(c.buf) > 0 })
 	if len(c.buf) > 0 {
-		v := c.buf[0]
-		c.buf = c.buf[1:]
-		acquire(c)
-		return v, true
+		return c.pop(), true
 	}
-	acquire(c)
+	c.acquireClose()
 	return zero(elem), false
 }
 
@@ -377,7 +404,10 @@ func chanClose(ch value) {
 	if c.closed {
 		panic("runtime error: close of closed channel")
 	}
-	release(c)
+	if sched != nil && sched.cur != nil {
+		c.cvc = append([]int{}, sched.cur.vc...)
+		sched.cur.tick()
+	}
 	c.closed = true
 	sched.yield(nil)
 }
@@ -433,13 +463,12 @@ func doSelect(fr *frame, instr *ssa.Select) value {
 			if s.c.closed {
 				panic(targetPanic{iface{t: types.Typ[types.String], v: "send on closed channel"}})
 			}
-			release(s.c)
-			s.c.buf = append(s.c.buf, s.v)
+			s.c.push(s.v)
 		} else {
-			acquire(s.c)
 			if len(s.c.buf) > 0 {
-				recv, recvOk = s.c.buf[0], true
-				s.c.buf = s.c.buf[1:]
+				recv, recvOk = s.c.pop(), true
+			} else {
+				s.c.acquireClose()
 			}
 		}
 	}
